@@ -323,3 +323,28 @@ package services
 //@   loop 1
 //@     invariant forall k int :: {subNames[k]} {subs[k]} 0 <= k && k <= idx ==> subNames[k] == subs[k].Name
 //@     invariant len(subNames) == len(subs) && req != nil
+
+// C03 / C04 / C16: one streaming-pull request becomes one stream request carrying every ack id and every
+// modify-deadline id it contained, converted in order (first request or not); the deadline applied is the
+// largest one requested; flow control is taken from the first request only; a nil error comes with a non-nil request.
+//@ func (*streamWrapper).adaptIn(w, m) (ret, err)
+//@   property C03 C04 C16
+//@   nopanic
+//@   requires w != nil && m != nil
+//@   ensures answered: [C16] (err == nil) == (ret != nil)
+//@   ensures acks_kept: [C03] err == nil ==> len(ret.Ack) == len(m.AckIds) && (forall i int :: {ret.Ack[i]} 0 <= i && i < len(m.AckIds) ==> ret.Ack[i] == uuidparse(m.AckIds[i]))
+//@   ensures delays_kept: [C04] err == nil ==> len(ret.Delay) == len(m.ModifyDeadlineAckIds) && len(m.ModifyDeadlineSeconds) == len(m.ModifyDeadlineAckIds) &&
+//@             (forall i int :: {ret.Delay[i]} 0 <= i && i < len(m.ModifyDeadlineAckIds) ==> ret.Delay[i] == uuidparse(m.ModifyDeadlineAckIds[i]))
+//@   ensures longest_deadline: [C04] err == nil ==> ret.DelaySeconds >= 0.0 && (forall i int :: {m.ModifyDeadlineSeconds[i]} 0 <= i && i < len(m.ModifyDeadlineSeconds) ==> ret.DelaySeconds >= real(m.ModifyDeadlineSeconds[i])) &&
+//@             (ret.DelaySeconds == 0.0 || (exists i int :: 0 <= i && i < len(m.ModifyDeadlineSeconds) && ret.DelaySeconds == real(m.ModifyDeadlineSeconds[i])))
+//@   ensures no_nacks_invented: err == nil ==> len(ret.Nack) == 0
+//@   ensures flow_control_first_only: err == nil ==> ((ret.FlowControl != nil) == (m == old(w.initial)))
+//@   allocates E:uuid.UUID:, F:actions.MessageStreamRequest:*, F:actions.FlowControl:*
+//@   loop 1
+//@     invariant fresh_only("F:actions.MessageStreamRequest:*")
+//@     invariant ret != nil && !allocated(ret) && m != nil && idx < len(m.ModifyDeadlineSeconds) && ret.DelaySeconds >= 0.0
+//@     invariant forall i int :: {m.ModifyDeadlineSeconds[i]} 0 <= i && i <= idx ==> ret.DelaySeconds >= real(m.ModifyDeadlineSeconds[i])
+//@     invariant ret.DelaySeconds == 0.0 || (exists i int :: 0 <= i && i <= idx && ret.DelaySeconds == real(m.ModifyDeadlineSeconds[i]))
+//@     invariant len(ret.Ack) == len(m.AckIds) && (forall i int :: {ret.Ack[i]} 0 <= i && i < len(m.AckIds) ==> ret.Ack[i] == uuidparse(m.AckIds[i]))
+//@     invariant len(ret.Delay) == len(m.ModifyDeadlineAckIds) && (forall i int :: {ret.Delay[i]} 0 <= i && i < len(m.ModifyDeadlineAckIds) ==> ret.Delay[i] == uuidparse(m.ModifyDeadlineAckIds[i]))
+//@     invariant len(ret.Nack) == 0 && ((ret.FlowControl != nil) == (m == old(w.initial)))
